@@ -601,8 +601,11 @@ class Verifier:
                     out = None
             if out is not None:
                 self.paths_seen += 1
+                cx.cache['phase'] = 'contract'
                 # loop-invariant obligations and other side conditions are always proved
                 yield out
+                if cx.cache.get('vacuous'):
+                    self.vacuous_paths += 1
                 for nm in cx.assumed:
                     self.assumed.add(nm)
             stack.extend(cx.pending)
@@ -619,6 +622,8 @@ class Verifier:
         full = '%s/%s/%s/%s/%s' % (self.unit['prop'], self.unit['name'], self.case_tag or '-', out.path, name)
         t0 = time.time()
         fails = self.fail_counts.get(name, 0)
+        if backend is None and out.cx.cache.get('vacuous'):
+            backend = 'vacuous-path'                     # hypotheses of this path are unsatisfiable (found while running the contract body)
         if backend is not None:
             res = dict(verdict='proved', backend=backend, time_s=0.0, model=None, reason='')
         elif fails >= 2 and not (isinstance(goal, bool) and goal):
